@@ -58,6 +58,7 @@ func TestC04_Filters(t *testing.T) {
 		c04Anchors(t)
 		cmds := rapid.SliceOfN(c04Cmd(), 1, 16).Draw(t, "cmds")
 		db := gen.Load(t, cmds)
+		warmed := warmUp(t, db, cmds)
 		q, qc := gen.Query(t, cmds, []gen.QueryClass{"vocab", "vocab", "nlp", "typo", "typo", "fragment", "fragment", "one", "mixed"})
 		opt := gen.Options(t, gen.OptSpec{N: len(cmds), NoNegLimit: true})
 		path := rapid.SampledFrom([]string{"universal", "universal", "cached", "cached-delta", "cached-delta", "monitored", "legacy-pipeline"}).Draw(t, "path")
@@ -107,6 +108,9 @@ func TestC04_Filters(t *testing.T) {
 			}
 		}
 		labels := []string{"path:" + path, "q:" + string(qc)}
+		if warmed > 0 {
+			labels = append(labels, "warmed-database")
+		}
 		off := opt
 		off.UseFuzzy = false
 		if path != "legacy-pipeline" && opt.UseFuzzy && len(db.SearchUniversal(q, off)) == 0 {
